@@ -761,13 +761,17 @@ Lemma C09_split (l u p : R) (rho t0 t1 t2 : Q) (pre r : list (epoch R)) :
     snd (back NumR (pre ++ e1 :: e2 :: r)) = snd (back NumR (pre ++ e :: r)) /\
     sp s1 = sp s /\ sA s1 = sA s /\ sA s2 = sA s /\ sB s2 = sB s /\
     (forall tau, 0 <= tau ->
-       Pf l u p (sA s1) (sB s1) tau = Pf l u p (sA s) (sB s) (tau + (Q2R t2 - Q2R t1)) /\
-       Qf (sA s1) (sB s1) tau * Qf (sA s) (sB s) (Q2R t2 - Q2R t1)
-         = Qf (sA s) (sB s) (tau + (Q2R t2 - Q2R t1))).
+       let d := Q2R t2 - Q2R t1 in
+       p0form NumR l u p (sA s1) (sB s1) (exp (sA s1 * tau))
+         = p0form NumR l u p (sA s) (sB s) (exp (sA s * (tau + d))) /\
+       qform NumR (sB s1) (exp (sA s1 * tau)) * qform NumR (sB s) (exp (sA s * d))
+         = qform NumR (sB s) (exp (sA s * (tau + d)))).
 Proof.
   intros e e1 e2 H.
   destruct (back_split l u p rho t0 t1 t2 pre r H) as (lpre & s1 & s2 & s & lr & E1 & E2 & E3 & E4 & E5).
-  exists lpre, s1, s2, s, lr. repeat split; auto; apply E5; auto.
+  exists lpre, s1, s2, s, lr. repeat split; auto; try apply E5; auto.
+  - rewrite !p0form_R. apply E5; auto.
+  - rewrite !qform_R. apply E5; auto.
 Qed.
 
 Lemma C09_single (lam mu psi : R) (rho T : Q) survival tips ints :
